@@ -72,6 +72,7 @@ type GenOpt struct {
 	NoEvilMerge      bool       // merge commits carry no changes of their own
 	AvoidSize        int        // no generated file has exactly this size (keeps the --above boundary out of unrelated cases)
 	Midway           *MidwayOpt `json:",omitempty"` // "LFS adopted midway" history (midway.go) instead of the general generator
+	Nested           *NestedOpt `json:",omitempty"` // --fixup history whose attribute state changes through nested files only (nested.go)
 }
 
 type Gen struct {
@@ -94,6 +95,7 @@ type Gen struct {
 	sizesLeft    []int
 	ExoticCommit int               // idx of the commit carrying opt.Exotic (-1 none)
 	TagLabels    map[string]string // refs/tags/x -> "lightweight" | "annotated" | "annotated-tag-of-tag"
+	NestedEvents int               // (nested.go) commits that change a nested .gitattributes while the root file keeps its blob
 }
 
 func (g *Gen) logf(f string, a ...any) { g.Log = append(g.Log, fmt.Sprintf(f, a...)) }
@@ -128,6 +130,8 @@ func NewGen(env *sbx.Env, name string, seed int64, opt GenOpt) *Gen {
 	g.attrFlip = 2 + g.r.Intn(3)
 	if opt.Midway != nil {
 		g.buildMidway()
+	} else if opt.Nested != nil {
+		g.buildNested()
 	} else {
 		g.build()
 	}
